@@ -1,4 +1,118 @@
+import Mav.Proofs.Node2
 import Mav.Spec.Fanout
+/-
+  C11 — write fan-out. Property theorems only.
+  Model: transition system Mav/Model/Node.lean. A `dispatch` step is the node loop taking one request from
+  chWriteTo / chWriteAll / chWriteExcept and calling Channel.write on the selected channels; `disp` is the resulting
+  linearisation of all Write* calls of all goroutines (Go channel receive order). wDequeue / wOk / wFail are the single
+  writer goroutine of a channel handing one whole item to the transport.
+  The executable judge of real runs is Spec.Fan.fanLegal (Mav/Spec/Fanout.lean); the theorems below are what the model
+  guarantees for every reachable state, any number of channels and writers, any interleaving.
+-/
 namespace Mav.C11
-theorem placeholder : True := trivial
+open Mav Nd
+
+/-- what channel c's transport has been handed so far, in order (each element one whole item) -/
+def wire (x : ChanSt) : List Item := x.done.map (·.1) ++ inflightW x
+
+/-- **C11 (exactly once, in order, whole items).** On every channel, in every reachable state: the items handed to the
+    transport followed by the backlog are exactly the items the channel accepted, in acceptance order — nothing is
+    duplicated, reordered, split or lost between Channel.write and the transport. -/
+theorem wire_then_backlog_is_accepted (inputs : Cid → List RdRes) (s : St) (hr : Reach (init inputs) s) (c : Cid) :
+    wire (s.chans c) ++ (s.chans c).queue = (s.chans c).acc := by
+  have := (reach_faninv inputs s hr c).flow
+  unfold wire; rw [this]
+
+/-- **C11 (nothing invented, submission order kept).** What a channel accepted is a sub-sequence of what was dispatched to it,
+    so (with the theorem above) the wire order on every channel is a sub-sequence of the single dispatch order: two items
+    submitted by one goroutine (whose Write* calls return in program order) can never be swapped. -/
+theorem accepted_sublist_of_offered (inputs : Cid → List RdRes) (s : St) (hr : Reach (init inputs) s) (c : Cid) :
+    (s.chans c).acc.Sublist (s.chans c).seen := (reach_faninv inputs s hr c).sub
+
+theorem wire_sublist_of_offered (inputs : Cid → List RdRes) (s : St) (hr : Reach (init inputs) s) (c : Cid) :
+    (wire (s.chans c)).Sublist (s.chans c).seen := by
+  have h1 := wire_then_backlog_is_accepted inputs s hr c
+  have h2 := accepted_sublist_of_offered inputs s hr c
+  rw [← h1] at h2
+  exact (List.sublist_append_left _ _).trans h2
+
+/-- **C11 (all / one / all-but-one; closed and foreign channels ignored).** Effect of one dispatch on one channel:
+    a channel that is registered, selected by the target, alive and below its bound accepts exactly one copy; -/
+theorem dispatch_hit (s : St) (t : Tgt) (it : Item) (pick : Cid → Bool) (c : Cid)
+    (hm : c ∈ s.members) (ht : t.hits c = true) (hq : (s.chans c).queue.length < qcap) (hl : (s.chans c).ctxDone = false) :
+    ((dispatch s t it pick).chans c).acc = (s.chans c).acc ++ [it] ∧
+    ((dispatch s t it pick).chans c).queue = (s.chans c).queue ++ [it] ∧
+    ((dispatch s t it pick).chans c).seen = (s.chans c).seen ++ [it] := by
+  simp [dispatch, enq, hm, ht, hq, hl]
+
+/-- … and a channel that is not selected (`to` another channel, the excluded one of `except`), or is not registered (closed,
+    or a foreign Channel value), is left completely untouched. -/
+theorem dispatch_miss (s : St) (t : Tgt) (it : Item) (pick : Cid → Bool) (c : Cid)
+    (h : c ∉ s.members ∨ t.hits c = false) : (dispatch s t it pick).chans c = s.chans c := by
+  rcases h with h | h
+  · simp [dispatch, enq, h]
+  · simp [dispatch, enq, h]
+
+theorem hits_to (c d : Cid) : (Tgt.to c).hits d = true ↔ d = c := by
+  simp only [Tgt.hits, beq_iff_eq]; exact eq_comm
+theorem hits_except (c d : Cid) : (Tgt.except c).hits d = true ↔ d ≠ c := by
+  simp only [Tgt.hits, bne_iff_ne, ne_eq]; exact ⟨fun h e => h e.symm, fun h e => h e.symm⟩
+theorem hits_all (d : Cid) : Tgt.all.hits d = true := rfl
+
+/-- **C11 (nothing dropped below the bound).** An execution in which every dispatch found every selected registered channel
+    alive and with fewer than 64 items queued. -/
+inductive ReachBelow (s0 : St) : St → Prop
+  | refl : ReachBelow s0 s0
+  | other {s s'} : ReachBelow s0 s → Step s s' → SameFan s s' → ReachBelow s0 s'
+  | disp {s} (t it pick) : ReachBelow s0 s → s.npc = .loop →
+      (∀ c ∈ s.members, t.hits c = true → (s.chans c).queue.length < qcap ∧ (s.chans c).ctxDone = false) →
+      ReachBelow s0 (dispatch s t it pick)
+
+/-- In such an execution every channel has accepted everything that was addressed to it: acc = seen. -/
+theorem nothing_dropped_below_bound (inputs : Cid → List RdRes) (s : St) (h : ReachBelow (init inputs) s) (c : Cid) :
+    (s.chans c).acc = (s.chans c).seen := by
+  induction h with
+  | refl => simp [init]
+  | other _ _ hs ih => rw [(hs c).1, (hs c).2]; exact ih
+  | @disp s1 t it pick _ hl hb ih =>
+    by_cases hm : c ∈ s1.members ∧ t.hits c = true
+    · obtain ⟨h1, h2, h3⟩ := dispatch_hit s1 t it pick c hm.1 hm.2 (hb c hm.1 hm.2).1 (hb c hm.1 hm.2).2
+      rw [h1, h3, ih]
+    · have : c ∉ s1.members ∨ t.hits c = false := by
+        by_cases h1 : c ∈ s1.members
+        · right; simpa using fun h2 => hm ⟨h1, h2⟩
+        · left; exact h1
+      rw [dispatch_miss s1 t it pick c this]; exact ih
+
+/-- `ReachBelow` executions are executions (the theorem above is not about a different system). -/
+theorem reachBelow_reach (s0 s : St) (h : ReachBelow s0 s) : Reach s0 s := by
+  induction h with
+  | refl => exact .refl
+  | other _ hs _ ih => exact .step ih hs
+  | disp t it pick _ hl _ ih => exact .step ih (Step.dispatch _ t it pick hl)
+
+/-- **C11 (the bound is the declared one).** -/
+theorem bound_is_64 : qcap = 64 := by decide
+
+/-- the judge's `hits` (Spec.Fan) and the model's agree on real channels -/
+theorem hits_agree_all (c : Nat) : Spec.Fan.hits { isMsg := true, tgt := .all } c = Tgt.all.hits c := rfl
+theorem hits_agree_to (d c : Nat) : Spec.Fan.hits { isMsg := true, tgt := .to (some d) } c = (Tgt.to d).hits c := by
+  simp [Spec.Fan.hits, Tgt.hits]
+theorem hits_agree_except (d c : Nat) : Spec.Fan.hits { isMsg := true, tgt := .except (some d) } c = (Tgt.except d).hits c := by
+  simp [Spec.Fan.hits, Tgt.hits]
+
+/-- non-vacuity: a reachable state with one registered channel that accepted an item and handed it to its transport -/
+example : ∃ s, ReachBelow (init (fun _ => [])) s ∧ wire (s.chans 0) = [5] ∧ (s.chans 0).seen = [5] := by
+  let i : Cid → List RdRes := fun _ => []
+  have r0 : ReachBelow (init i) (init i) := .refl
+  have r1 := ReachBelow.other r0 (Step.newChan (init i) 0 rfl rfl rfl (by simp [init])) (by
+    intro c; by_cases hc : c = 0 <;> simp [upd, hc])
+  have r2 := ReachBelow.disp .all 5 (fun _ => true) r1 rfl (by
+    intro c hc _; simp [init] at hc; subst hc; simp [upd, init, qcap, Gen.writeBufferSize])
+  have r3 := ReachBelow.other r2 (Step.wDequeue _ 0 5 [] (by simp [dispatch, enq, upd, init, Tgt.hits, qcap, Gen.writeBufferSize])
+    (by simp [dispatch, enq, upd, init, Tgt.hits, qcap, Gen.writeBufferSize]) (by simp [dispatch, enq, upd, init, Tgt.hits, qcap, Gen.writeBufferSize]))
+    (by intro c; by_cases hc : c = 0 <;> simp [upd, hc])
+  exact ⟨_, r3, by simp [wire, inflightW, dispatch, enq, upd, init, Tgt.hits, qcap, Gen.writeBufferSize],
+    by simp [dispatch, enq, upd, init, Tgt.hits, qcap, Gen.writeBufferSize]⟩
+
 end Mav.C11
